@@ -99,37 +99,200 @@ func pureBlock(ex *Exec, b *ssa.BasicBlock) bool {
 	return ok
 }
 
-// tryMerge handles `if c` at the end of block b. Returns true if control has been moved to the join block.
+// postDominators computes the immediate post-dominator of every block of fn (nil = the virtual exit).
+func postDominators(fn *ssa.Function) map[*ssa.BasicBlock]*ssa.BasicBlock {
+	n := len(fn.Blocks)
+	// pdom sets as bitsets over block indices, plus a virtual exit with index n
+	full := make([]bool, n+1)
+	for i := range full {
+		full[i] = true
+	}
+	pd := make([][]bool, n+1)
+	for i := 0; i <= n; i++ {
+		pd[i] = append([]bool{}, full...)
+	}
+	exit := make([]bool, n+1)
+	exit[n] = true
+	pd[n] = exit
+	succs := func(b *ssa.BasicBlock) []int {
+		if len(b.Succs) == 0 {
+			return []int{n}
+		}
+		var out []int
+		for _, s := range b.Succs {
+			out = append(out, s.Index)
+		}
+		return out
+	}
+	for changed := true; changed; {
+		changed = false
+		for i := n - 1; i >= 0; i-- {
+			b := fn.Blocks[i]
+			nw := append([]bool{}, full...)
+			for _, s := range succs(b) {
+				for k := range nw {
+					nw[k] = nw[k] && pd[s][k]
+				}
+			}
+			nw[i] = true
+			for k := range nw {
+				if nw[k] != pd[i][k] {
+					changed = true
+				}
+			}
+			pd[i] = nw
+		}
+	}
+	res := map[*ssa.BasicBlock]*ssa.BasicBlock{}
+	for i, b := range fn.Blocks {
+		// immediate post-dominator: the strict post-dominator that is post-dominated by all other strict ones
+		var best *ssa.BasicBlock
+		bestCount := -1
+		for k := 0; k < n; k++ {
+			if k == i || !pd[i][k] {
+				continue
+			}
+			cnt := 0
+			for j := 0; j <= n; j++ {
+				if pd[k][j] {
+					cnt++
+				}
+			}
+			if cnt > bestCount { // the closest one has the largest post-dominator set
+				bestCount = cnt
+				best = fn.Blocks[k]
+			}
+		}
+		res[b] = best
+	}
+	return res
+}
+
+func (eng *Engine) ipdom(b *ssa.BasicBlock) *ssa.BasicBlock {
+	fn := b.Parent()
+	v, ok := eng.pdomCache.Load(fn)
+	if !ok {
+		v = postDominators(fn)
+		eng.pdomCache.Store(fn, v)
+	}
+	return v.(map[*ssa.BasicBlock]*ssa.BasicBlock)[b]
+}
+
+func pureRegionBlock(ex *Exec, b *ssa.BasicBlock) bool {
+	if len(b.Instrs) > 40 {
+		return false
+	}
+	for i, in := range b.Instrs {
+		if i == len(b.Instrs)-1 {
+			switch in.(type) {
+			case *ssa.Jump, *ssa.If:
+				continue
+			}
+			return false
+		}
+		if !pureInstr(ex, in) {
+			return false
+		}
+	}
+	return true
+}
+
+// tryMerge handles `if c` at the end of block b by if-converting the acyclic, side-effect-free,
+// single-entry region between b and its immediate post-dominator J: every block of the region is evaluated
+// under a guard term, phis are merged by the guards of their incoming edges. Returns true if control has
+// been moved to J.
 func (ex *Exec) tryMerge(fr *frame, instr *ssa.If, c *Term) bool {
 	if ex.speculative {
 		panic(mergeFail{"nested symbolic branch"})
 	}
+	tt := ex.tt
 	b := instr.Block()
-	T, E := b.Succs[0], b.Succs[1]
-	var join *ssa.BasicBlock
-	var arms []*ssa.BasicBlock // executed arms
-	switch {
-	case len(T.Preds) == 1 && len(E.Preds) == 1 && len(T.Succs) == 1 && len(E.Succs) == 1 && T.Succs[0] == E.Succs[0] && T != E:
-		join = T.Succs[0]
-		arms = []*ssa.BasicBlock{T, E}
-	case len(T.Preds) == 1 && len(T.Succs) == 1 && T.Succs[0] == E:
-		join = E
-		arms = []*ssa.BasicBlock{T}
-	case len(E.Preds) == 1 && len(E.Succs) == 1 && E.Succs[0] == T:
-		join = T
-		arms = []*ssa.BasicBlock{E}
-	default:
+	J := ex.eng.ipdom(b)
+	if J == nil || J == b {
 		return false
 	}
-	if join == b {
+	// collect the region in topological order (DFS post-order reversed), bounded
+	region := map[*ssa.BasicBlock]bool{}
+	var order []*ssa.BasicBlock
+	state := map[*ssa.BasicBlock]int{} // 1 = on stack, 2 = done
+	okRegion := true
+	var dfs func(x *ssa.BasicBlock)
+	dfs = func(x *ssa.BasicBlock) {
+		if !okRegion || x == J {
+			return
+		}
+		if x == b || state[x] == 1 {
+			okRegion = false // cycle
+			return
+		}
+		if state[x] == 2 {
+			return
+		}
+		state[x] = 1
+		region[x] = true
+		if len(region) > 10 || !pureRegionBlock(ex, x) {
+			okRegion = false
+			return
+		}
+		for _, s := range x.Succs {
+			dfs(s)
+		}
+		state[x] = 2
+		order = append(order, x)
+	}
+	for _, s := range b.Succs {
+		dfs(s)
+	}
+	if !okRegion {
 		return false
 	}
-	for _, a := range arms {
-		if !pureBlock(ex, a) {
-			return false
+	for x := range region { // single entry: every predecessor is b or in the region
+		for _, p := range x.Preds {
+			if p != b && !region[p] {
+				return false
+			}
 		}
 	}
-	// speculative execution of the arms
+	for i, j := 0, len(order)-1; i < j; i, j = i+1, j-1 {
+		order[i], order[j] = order[j], order[i]
+	}
+	type edge struct{ from, to *ssa.BasicBlock }
+	eguard := map[edge]*Term{}
+	addEdge := func(from, to *ssa.BasicBlock, g *Term) {
+		e := edge{from, to}
+		if old, ok := eguard[e]; ok {
+			g = tt.BOr(old, g)
+		}
+		eguard[e] = g
+	}
+	addEdge(b, b.Succs[0], c)
+	addEdge(b, b.Succs[1], tt.BNot(c))
+	mergePhi := func(phi *ssa.Phi, blk *ssa.BasicBlock) (Value, bool) {
+		var res Value
+		have := false
+		for i, p := range blk.Preds {
+			g, ok := eguard[edge{p, blk}]
+			if !ok || g.IsFalse() {
+				continue
+			}
+			v := fr.get(phi.Edges[i])
+			if !have {
+				res, have = v, true
+				continue
+			}
+			rt, ok1 := res.(*Term)
+			vt, ok2 := v.(*Term)
+			if ok1 && ok2 && rt.kind == vt.kind && rt.w == vt.w {
+				res = tt.Ite(g, vt, rt)
+				continue
+			}
+			if sameValue(res, v) {
+				continue
+			}
+			return nil, false
+		}
+		return res, have
+	}
 	ok := func() (ok bool) {
 		ex.speculative = true
 		savedPrev, savedBlock := fr.prev, fr.block
@@ -145,13 +308,34 @@ func (ex *Exec) tryMerge(fr *frame, instr *ssa.If, c *Term) bool {
 				}
 			}
 		}()
-		for _, a := range arms {
-			fr.prev, fr.block = b, a
-			for _, in := range a.Instrs {
-				if _, isJ := in.(*ssa.Jump); isJ {
-					break
+		for _, x := range order {
+			g := tt.False
+			for _, p := range x.Preds {
+				if eg, ok := eguard[edge{p, x}]; ok {
+					g = tt.BOr(g, eg)
 				}
-				ex.visit(fr, in)
+			}
+			if g.IsFalse() {
+				continue // not reachable on this path: do not evaluate (its instructions may be guarded by the branch)
+			}
+			fr.block = x
+			for _, in := range x.Instrs {
+				switch in := in.(type) {
+				case *ssa.Phi:
+					v, ok := mergePhi(in, x)
+					if !ok {
+						panic(mergeFail{"phi not mergeable"})
+					}
+					fr.env[in] = v
+				case *ssa.Jump:
+					addEdge(x, x.Succs[0], g)
+				case *ssa.If:
+					ic := fr.term(in.Cond)
+					addEdge(x, x.Succs[0], tt.BAnd(g, ic))
+					addEdge(x, x.Succs[1], tt.BAnd(g, tt.BNot(ic)))
+				default:
+					ex.visit(fr, in)
+				}
 			}
 		}
 		return true
@@ -159,49 +343,29 @@ func (ex *Exec) tryMerge(fr *frame, instr *ssa.If, c *Term) bool {
 	if !ok {
 		return false
 	}
-	// merge the phis of the join block
-	predVal := func(phi *ssa.Phi, pred *ssa.BasicBlock) (Value, bool) {
-		for i, p := range join.Preds {
-			if p == pred {
-				return fr.get(phi.Edges[i]), true
-			}
-		}
-		return nil, false
-	}
-	var tPred, ePred *ssa.BasicBlock // predecessor of join when cond is true / false
-	switch {
-	case len(arms) == 2:
-		tPred, ePred = T, E
-	case arms[0] == T:
-		tPred, ePred = T, b
-	default:
-		tPred, ePred = b, E
-	}
 	over := map[*ssa.Phi]Value{}
-	for _, in := range join.Instrs {
+	var pred *ssa.BasicBlock
+	for _, p := range J.Preds {
+		if g, ok := eguard[edge{p, J}]; ok && !g.IsFalse() {
+			pred = p
+		}
+	}
+	if pred == nil {
+		return false
+	}
+	for _, in := range J.Instrs {
 		phi, isPhi := in.(*ssa.Phi)
 		if !isPhi {
 			break
 		}
-		tv, ok1 := predVal(phi, tPred)
-		ev, ok2 := predVal(phi, ePred)
-		if !ok1 || !ok2 {
+		v, ok := mergePhi(phi, J)
+		if !ok {
 			return false
 		}
-		tt, okT := tv.(*Term)
-		et, okE := ev.(*Term)
-		if okT && okE && tt.kind == et.kind && tt.w == et.w {
-			over[phi] = ex.tt.Ite(c, tt, et)
-			continue
-		}
-		if sameValue(tv, ev) {
-			over[phi] = tv
-			continue
-		}
-		return false
+		over[phi] = v
 	}
 	fr.phiOverride = over
-	fr.prev, fr.block = tPred, join
+	fr.prev, fr.block = pred, J
 	ex.merges++
 	return true
 }
